@@ -229,3 +229,9 @@ Example ex_unrolled_copy :
 Proof.
   split; [apply copy_same_listing, ex_unrolled_cwf|]. split; [apply copy_of_copy, ex_unrolled_cwf | vm_compute; reflexivity].
 Qed.
+
+(* RelationLink.copy and MultiRelationLink.copy hand the relation type (and the group rule) on to the copied link:
+   read from the source by the translator; breaks when a copy() forgets one of them *)
+Lemma link_copies_faithful :
+  relation_link_copy_keeps_type = true /\ multi_link_copy_keeps_type = true /\ multi_link_copy_keeps_group = true.
+Proof. repeat split; reflexivity. Qed.
